@@ -133,6 +133,37 @@ func genC01(c *Ctx) {
 		// slide words with a ZERO nibble below a non-zero one (never produced by AllMoves or the PTN parser, but
 		// reachable through the playtak wire format): on every stack the mover controls, in every direction
 		emitZeroNibbleSlides(c, p, tok)
+		// a good move into storage that has just been through a rejected one (and through another position before)
+		if good := legalMoves(p); len(good) > 0 {
+			var bad []tak.Move
+			for _, m := range ms {
+				if _, err := p.Move(m); err != nil {
+					bad = append(bad, m)
+				}
+			}
+			// placements the reserves do not allow, on empty squares (rejected late, after the copy)
+			for y := 0; y < p.Size(); y++ {
+				for x := 0; x < p.Size(); x++ {
+					if p.Top(x, y) == 0 {
+						for _, ty := range []tak.MoveType{tak.PlaceCapstone, tak.PlaceStanding, tak.PlaceFlat} {
+							m := tak.Move{X: int8(x), Y: int8(y), Type: ty}
+							if _, err := p.Move(m); err != nil {
+								bad = append(bad, m)
+							}
+						}
+					}
+				}
+			}
+			dtok := encPos(constructed(c.R, p.Size()))
+			for j := 0; j < 6; j++ {
+				mf := rawMove(c.R, p.Size())
+				if len(bad) > 0 && c.R.Chance(4, 5) {
+					mf = bad[c.R.Intn(len(bad))]
+				}
+				c.Emit("movepre2 " + tok + " " + encMove(mf) + " " + encMove(good[c.R.Intn(len(good))]) + " " + dtok)
+			}
+			c.Count("movepre2")
+		}
 		// the exported accessors (Top, At, Analysis(), IsRoad, reserves, ToMove) on the position and on a successor
 		c.Emit("acc " + tok)
 		if len(ms) > 0 {
@@ -551,6 +582,23 @@ func genC02(c *Ctx) {
 		}
 		classifyPos(c, p)
 		emitC02(c, p, c.R.Chance(1, 4))
+		if k%3 == 0 {
+			// the verdict on a position living in a reused search-stack frame (m2 a wall placement or a pass half of the time)
+			if ms := legalMoves(p); len(ms) > 0 {
+				m1 := ms[c.R.Intn(len(ms))]
+				if a, err := p.Move(m1); err == nil {
+					m2 := tak.Move{Type: tak.Pass}
+					if as := legalMoves(a); len(as) > 0 && c.R.Chance(2, 3) {
+						m2 = as[c.R.Intn(len(as))]
+						for t := 0; t < 4 && m2.Type != tak.PlaceStanding && c.R.Chance(1, 2); t++ {
+							m2 = as[c.R.Intn(len(as))]
+						}
+					}
+					c.Emit("overstack " + encPos(p) + " " + encMove(m1) + " " + encMove(m2) + " " + encMove(ms[c.R.Intn(len(ms))]))
+					c.Count("overstack")
+				}
+			}
+		}
 		if k%4 == 0 {
 			// exported accessors incl. Analysis() and GameOver on the same boards; Flood / BitCoords / TrailingZeros directly
 			c.Emit("acc " + encPos(p))
